@@ -3,6 +3,8 @@ package main
 import (
 	"context"
 	"fmt"
+	"math"
+	"strconv"
 	"strings"
 	"unicode"
 
@@ -119,6 +121,17 @@ func indexFor(k int, cs bool) *sIndex {
 				}
 				f.toks = append(f.toks, sTok{field, w, ls})
 			}
+			if field == "fk" && a == 0 {
+				for w, at := range wsTokens {
+					var l2 []uint32
+					for i := 0; i < u; i++ {
+						if i>>at&1 == 1 {
+							l2 = append(l2, uint32(i+1))
+						}
+					}
+					f.toks = append(f.toks, sTok{field, w, l2})
+				}
+			}
 			if field == "fk" {
 				// the builtin existence tokens: field names as they are, whatever the case configuration
 				f.toks = append(f.toks, sTok{"_exists_", fmt.Sprintf("V%d", a), ls})
@@ -169,10 +182,69 @@ func foreignLeaf(n *parser.ASTNode, k int, cs bool) string {
 		}
 		return ""
 	}
+	if rg, ok := n.Value.(*parser.Range); ok {
+		// a point range [X, X] whose X is no token of the field
+		if rg.IncludeFrom && rg.IncludeTo && rg.From.Kind == parser.TermText && rg.To.Kind == parser.TermText && rg.From.Data == rg.To.Data {
+			for _, t := range indexFor(k, cs).toks {
+				if t.field == rg.Field && t.val == rg.From.Data {
+					return ""
+				}
+			}
+			return fmt.Sprintf("%s:[%q, %q]", rg.Field, rg.From.Data, rg.To.Data)
+		}
+		return ""
+	}
 	for _, ch := range n.Children {
 		if m := foreignLeaf(ch, k, cs); m != "" {
 			return m
 		}
 	}
 	return ""
+}
+
+// refRange is the reference meaning of field:[lo, hi] over the fake index (independent of parser and pattern package):
+// numbers are compared as numbers iff both given bounds are numbers (strconv.ParseFloat, untrimmed), otherwise byte
+// strings; "*" is an open end; the bounds follow the field's case rule.
+func refRange(k int, cs bool, field, lo, hi string, incLo, incHi bool) string {
+	if !cs {
+		lo, hi = lowerRunes(lo), lowerRunes(hi)
+	}
+	isNum := func(s string) (float64, bool) {
+		v, err := strconv.ParseFloat(s, 64)
+		return v, err == nil && !math.IsNaN(v) && !math.IsInf(v, 0)
+	}
+	lof, lon := isNum(lo)
+	hif, hin := isNum(hi)
+	numeric := (lo == "*" || lon) && (hi == "*" || hin)
+	u := 1 << k
+	b := []byte(strings.Repeat("0", u))
+	for _, t := range indexFor(k, cs).toks {
+		if t.field != field {
+			continue
+		}
+		ok := true
+		if numeric {
+			v, isn := isNum(t.val)
+			ok = isn
+			if ok && lo != "*" {
+				ok = lof < v || (incLo && lof == v)
+			}
+			if ok && hi != "*" {
+				ok = v < hif || (incHi && v == hif)
+			}
+		} else {
+			if lo != "*" {
+				ok = lo < t.val || (incLo && lo == t.val)
+			}
+			if ok && hi != "*" {
+				ok = t.val < hi || (incHi && t.val == hi)
+			}
+		}
+		if ok {
+			for _, l := range t.lids {
+				b[l-1] = '1'
+			}
+		}
+	}
+	return string(b)
 }
